@@ -137,3 +137,17 @@ func RestoreOrigins() {
 }
 
 const Pkg = "github.com/tencent/goom/zzverif/corpus/fn"
+
+// Big has a large frame: its stack check fails while its callers still had room.
+//
+//go:noinline
+func Big(a int) int {
+	var buf [1024]byte
+	buf[a%1024] = byte(a)
+	return work(a) + 4000 + int(buf[(a+1)%1024])
+}
+
+//go:noinline
+func PhBig(a int) int { return filler(a) - 1000 }
+
+var OBig = PhBig
